@@ -229,7 +229,8 @@ class Association(threading.Thread):
         if self._sent_abort:
             return
 
-        if self.is_released:
+        # Nothing to abort if already released or aborted (e.g. by the peer)
+        if self.is_released or self.is_aborted:
             return
 
         # Set before restarting the reactor to prevent race condition
